@@ -4,6 +4,7 @@ import (
 	"crypto/tls"
 	"encoding/json"
 	"fmt"
+	"os"
 	"reflect"
 	"sort"
 	"sync"
@@ -232,6 +233,7 @@ type c18Open struct {
 }
 
 func execC18Mesh(b []byte) vx.Verdict {
+	os.Unsetenv("VERIF_NET_DELAY") // (a case that ended inside a paused reopen event leaves it set; executor processes are reused)
 	var s C18Mesh
 	if err := json.Unmarshal(b, &s); err != nil {
 		return vx.Inconclusive("bad scenario: %v", err)
@@ -332,6 +334,12 @@ func execC18Mesh(b []byte) vx.Verdict {
 			n := m.Node(node).N
 			tags := c18Tags[ev.Tags%len(c18Tags)]
 			rounds := 40 + (ev.Kind*70+ev.Tags*30)%280
+			// in half of the events the closing side pauses (hook) between taking the service out of the registry and withdrawing
+			// its advertisement: whatever else may run in that window gets the time to do so
+			if (ev.Node+ev.Svc+ev.Tags)%2 == 0 {
+				os.Setenv("VERIF_NET_DELAY", "packetconn.close.before_withdraw:1500")
+				labels = append(labels, "close-paused-before-withdrawal")
+			}
 			cur := o
 			for round := 0; round < rounds && cur != nil; round++ {
 				start := make(chan struct{})
@@ -376,6 +384,7 @@ func execC18Mesh(b []byte) vx.Verdict {
 					}
 				}
 			}
+			os.Unsetenv("VERIF_NET_DELAY")
 			delete(open, k)
 			if cur != nil {
 				open[k] = cur
